@@ -72,6 +72,8 @@ class ElabPass:
     def __init__(self, tops: List[Elaboratable]):
         self.tops = tops
         self.stack: List[ElabStackEntry] = list()
+        # Modules whose instances this run has walked already
+        self.walked: Set[Module] = set()
 
     def elaborate_tops(self) -> List[Elaboratable]:
         """Elaborate our top nodes"""
@@ -103,6 +105,11 @@ class ElabPass:
 
         # Check if this has already been elaborated by this pass/ class
         if module in self.CLASS_LEVEL_CACHE.done:
+            if module._elaborated is None and module not in self.walked:
+                # An earlier elaboration got through this pass on `module`, and then failed elsewhere.
+                # Instances added to it since may refer to modules which this pass has never seen. Visit them.
+                self.walked.add(module)
+                self.elaborate_instances(module)
             return module
 
         # A Module on which an earlier elaboration attempt failed may have been left half-rewritten
@@ -120,15 +127,11 @@ class ElabPass:
             msg = f"Invalid self referencing/ circular dependency in `{module}`"
             return self.fail(msg)
         self.CLASS_LEVEL_CACHE.pending.add(module)
+        self.walked.add(module)
 
         try:
             # Depth-first traverse instances, ensuring their targets are defined
-            for inst in module.instances.values():
-                self.elaborate_instance_base(inst)
-            for arr in module.instarrays.values():
-                self.elaborate_instance_base(arr)
-            for instbundle in module.instbundles.values():
-                self.elaborate_instance_base(instbundle)
+            self.elaborate_instances(module)
 
             # Traverse Bundle instances
             for bundle in module.bundles.values():
@@ -154,6 +157,15 @@ class ElabPass:
         self.stack.pop()
         self.CLASS_LEVEL_CACHE.done.add(module)
         return result
+
+    def elaborate_instances(self, module: Module) -> None:
+        """Visit the targets of all of `module`'s instances, arrays and instance-bundles."""
+        for inst in list(module.instances.values()):
+            self.elaborate_instance_base(inst)
+        for arr in list(module.instarrays.values()):
+            self.elaborate_instance_base(arr)
+        for instbundle in list(module.instbundles.values()):
+            self.elaborate_instance_base(instbundle)
 
     def elaborate_module(self, module: Module) -> Module:
         """Elaborate a Module. Returns the Module unmodified by default."""
